@@ -185,11 +185,17 @@ def read_error(kind: str) -> BaseException:
     return TransportError("injected read failure")
 
 
-def make_gateway(version: str | None, *, metric: bool = True, transport: Transport | None = None, ctx: str | None = None) -> tuple[Gateway, Any]:
+UNWRITABLE_FILE = "/nonexistent-directory-for-vf/registry.json"
+
+
+def make_gateway(version: str | None, *, metric: bool = True, transport: Transport | None = None, ctx: str | None = None, persistence_file: str | None = None) -> tuple[Gateway, Any]:
+    """persistence_file: None, a path, or "unwritable" (a location that cannot be written: every save fails with PersistenceWriteError)."""
     transport = transport or RecordingTransport()
+    if persistence_file == "unwritable":
+        persistence_file = UNWRITABLE_FILE
 
     def build() -> Gateway:
-        gateway = Gateway(transport, Config(metric=metric))
+        gateway = Gateway(transport, Config(metric=metric, persistence_file=persistence_file))
         if version is not None:
             gateway.protocol_version = version
         return gateway
@@ -388,16 +394,21 @@ class MemTransport(asyncio.Transport):
 
     def __init__(self) -> None:
         super().__init__()
-        self.data = bytearray()
+        self.chunks: list = []  # the very objects handed to write(): a real transport queues them when it cannot send at once
         self.closing = False
         self.close_exc: BaseException | None = None
         self.lost_exc: BaseException | None = None
         self.protocol: Any = None
         self.closed_count = 0
 
+    @property
+    def data(self) -> bytes:
+        """What goes out on the wire: the queued objects as they are NOW (the link was busy; nothing has been copied yet)."""
+        return b"".join(bytes(chunk) for chunk in self.chunks)
+
     def write(self, data) -> None:
         if not self.closing:
-            self.data += bytes(data)
+            self.chunks.append(data)
 
     def writelines(self, lines) -> None:
         for line in lines:
